@@ -1,11 +1,15 @@
 """C13 - adaptation follows acceptance in the documented direction and then stops."""
 import random
 
-from .. import core, adapt
+from .. import core, adapt, adaptm
 
 ASSUMPTIONS = [
     "the adaptation is driven through prop.update(stub chain): the stub provides exactly what _update reads (last acceptance record, "
-    "current position); componentwise Andrieu-Thoms and full-covariance variants are checked by the direct oracle only",
+    "current position); for the componentwise Andrieu-Thoms variants also the model, the current statistics, the proposed position and "
+    "_acceptance_ratio, whose value for each virtual move is scripted (the oracle input `ars` of AdaptM.atc_update / atcf_update) and "
+    "whose out-of-prior virtual moves (logp = -inf) must count as ratio 0",
+    "the eigendecomposition of the adaptive eigenvector proposals (numpy.linalg.eigh) is not modelled: the covariance and mean recursion "
+    "and the log-scale are; the eigenvalues are checked directly against eigh(cov) * exp(log_lambda)",
     "FloatLib exp/ln/sqrt agree with numpy to 1e-9",
 ]
 MODELLED = ('veitch', 'ss', 'at', 'eig', 'kappa')
@@ -60,6 +64,99 @@ def check_step(kind, b, a, info, problems):
                             % (ar, t, sv0, sv1, dk))
 
 
+def check_mstep(kind, b, a, info, problems):
+    """direction per component / globally, freezing of the whole state, eigenvalues consistent with the covariance"""
+    if a is None:
+        return
+    if not info['called']:
+        if not struct_same(b, a):
+            problems.append('adaptation state changed on an iteration where the proposal does not jump')
+        return
+    T, t = b['T'], b['target']
+    dk = b['nsteps'] - b['start'] + 1
+    if dk >= T or dk < 2:
+        if not struct_same(b, a):
+            ch = [q for q in b if b[q] != a[q] and q != 'nsteps']
+            problems.append('proposal distribution changed outside the adaptation window (dk=%d, duration %d): %s' % (dk, T, ch))
+        return
+    if kind in ('at_cw', 'at_cwf'):
+        for i, (ar, l0, l1) in enumerate(zip(info['ars'], b['loglam'], a['loglam'])):
+            if ar > t and not l1 > l0:
+                problems.append('component %d: virtual-move acceptance ratio %.3f above target %.3f did not widen it (log-scale %r -> %r, dk=%d)'
+                                % (i, ar, t, l0, l1, dk))
+            if ar < t and not l1 < l0:
+                problems.append('component %d: virtual-move acceptance ratio %.3f below target %.3f did not narrow it (log-scale %r -> %r, dk=%d)'
+                                % (i, ar, t, l0, l1, dk))
+        # each virtual move changes exactly its own parameter to the proposed value
+        for i, v in enumerate(info['virtual']):
+            keys = sorted(v)
+            want = [info['proposed'][j] if j == i else info['x'][j] for j in range(len(keys))]
+            if [v[q] for q in keys] != want:
+                problems.append('virtual move %d evaluated the model at %s, expected %s' % (i, [v[q] for q in keys], want))
+    else:
+        ar = info['ar']
+        if ar > t and not a['loglam'] > b['loglam']:
+            problems.append('acceptance ratio %.3f above target %.3f did not raise the log-scale (%r -> %r, dk=%d)' % (ar, t, b['loglam'], a['loglam'], dk))
+        if ar < t and not a['loglam'] < b['loglam']:
+            problems.append('acceptance ratio %.3f below target %.3f did not lower the log-scale (%r -> %r, dk=%d)' % (ar, t, b['loglam'], a['loglam'], dk))
+    if kind == 'eigc':
+        import numpy
+        w = numpy.linalg.eigvalsh(numpy.asarray(a['cov'])) * numpy.exp(a['loglam'])
+        if not numpy.allclose(sorted(a['eigvals']), sorted(w), rtol=1e-9, atol=1e-300):
+            problems.append('jump scales %s are not the eigenvalues of the covariance times exp(log_lambda) %s' % (a['eigvals'], list(w)))
+
+
+def matrix_variants(out, rng, thorough):
+    """componentwise / full-covariance Andrieu-Thoms and the eigenvector covariance recursion against AdaptM.v"""
+    terms, meta = [], []
+    hists = ['always', 'never', 'alternate', 'high', 'low', 'random']
+    for rep in range(4 if thorough else 1):
+        for name in sorted(adaptm.MFAMILIES):
+            for hk in hists:
+                T = rng.choice([8, 15, 40] if not thorough else [8, 15, 40, 120])
+                k = rng.choice([1, 1, 2, 3])
+                start = rng.choice([1, 1, 2, 5])
+                n = int((T + start + 6) * k * rng.choice([0.6, 1.2])) + 3
+                hist = adapt.history(hk, n, rng)
+                reset_at = rng.randrange(2 * k, max(2 * k + 1, n - 2)) if rng.random() < 0.3 else None
+                roundtrip_at = rng.randrange(1, n - 1) if rng.random() < 0.4 else None
+                blobs = rng.random() < 0.3
+                desc = dict(proposal=name, adaptation_duration=T, jump_interval=k, start_step=start, history=hk, steps=n,
+                            reset_before_step=reset_at, state_roundtrip_before_step=roundtrip_at, chain_has_blobs=blobs, matrix_variant=True)
+                problems = []
+                own = dict(start=start)
+
+                def on_step(kind, b, a, info):
+                    out.evaluations += 1
+                    out.count('family_m_' + name)
+                    if info['error'] is not None:
+                        problems.append('update raised %r' % (info['error'],))
+                        return
+                    check_mstep(kind, b, a, info, problems)
+                    i = info['i']
+                    if reset_at is not None and i == reset_at:
+                        own['start'] = max(i // k, 1)
+                    own_dk = i // k - own['start'] + 1
+                    if own_dk >= T and not struct_same(b, a, skip=('nsteps', 'start')):
+                        problems.append('proposal distribution changed %d proposal steps after its adaptation window started (duration %d)'
+                                        % (own_dk, T))
+                    if info['called']:
+                        terms.append(adaptm.coq_case(kind, b, a, info['ar'], info['ars'], info['x']))
+                        meta.append(dict(desc, step=i, before=b, after=a, ar=info['ar'], ars=info['ars'], x=info['x']))
+                        if 1 < b['nsteps'] - b['start'] + 1 < b['T']:
+                            out.count('matrix_updates_inside_window')
+                adaptm.drive(name, T, k, start, hist, hk, rng, on_step, reset_at=reset_at, roundtrip_at=roundtrip_at, blobs=blobs)
+                accs = [h[1] for h in hist]
+                if any(accs) and not all(accs) and n // k > T + start:
+                    out.nontrivial.add(repr(desc))
+                for p in problems[:2]:
+                    out.violations.append(dict(what='%s: %s' % (name, p), replay=desc))
+    failing = core.run_coq_cases('C13', adaptm.HEADER, terms, eval_fn='mfailing', per_file=600, tag='matrix')
+    for f in failing[:10]:
+        out.corr_failures.append(dict(note='AdaptM model and real _update disagree', case=meta[f[0]]))
+    out.count('coq_cases_matrix', len(terms))
+
+
 def run(seed, tier):
     thorough = tier == 'thorough'
     rng = random.Random(seed * 334214467 + 13)
@@ -67,7 +164,10 @@ def run(seed, tier):
     out.rule = ("all 18 adaptive classes (Veitch, Sivia-Skilling diagonal/full, Andrieu-Thoms diagonal/full, eigenvector, solid angle and "
                 "their bounded/angular/discrete variants) driven through real prop.update() calls with forced histories (always/never "
                 "accepted, alternating, high, low, random), durations 8..400, start steps 1..5, jump intervals 1..3; every update is a Coq "
-                "case for the float instance of the update and is checked for direction and freezing; non-trivial = a run that "
+                "case for the float instance of the update and is checked for direction and freezing; the componentwise / full-covariance "
+                "Andrieu-Thoms variants (4 + 2 classes, scripted virtual-move ratios, a share of virtual moves out of the prior, chains with "
+                "and without blobs) and the covariance / mean recursion of the eigenvector proposals (2 and 3 parameters) likewise against "
+                "AdaptM.v, state round trips and resets included; non-trivial = a run that "
                 "crosses the end of its adaptation window with >=1 accepted and >=1 rejected step; distinct = distinct (class, T, k, start, history)")
     terms, meta = [], []
     names = sorted(adapt.FAMILIES)
@@ -132,6 +232,7 @@ def run(seed, tier):
                     out.samples.append(dict(desc, first_state=first[0], last_state=last[0]))
             if len(out.violations) > 6:
                 break
+    matrix_variants(out, rng, thorough)
     failing = core.run_coq_cases('C13', adapt.HEADER, terms, per_file=1500)
     for f in failing[:10]:
         out.corr_failures.append(dict(note='adaptation model and real _update disagree', case=meta[f[0]]))
